@@ -1240,9 +1240,9 @@ def coverage(ctx):
               'swap, 8 lexical-class flips of every value, every truncation' %
               (len(space.configs), 'one or two departures (cardinality pairs are combined with the phrase forms only)'
                if ctx.thorough else 'one departure', [d for d, _ in DIMS]),
-            d='prefix + unit^n: %d prefixes, units of %s over the alphabet, n in %s' %
-              (len(PUMP_PREFIXES), '1..2 characters (n in 16, 24, 32, 48) and of 3 characters (n in 16, 32)' if ctx.thorough
-               else '1..2 characters (n in 16, 48) and of 3 characters (4 prefixes, n = 32)', '(see units)'),
+            d='prefix + unit^n: %d prefixes %r, units over the alphabet of %s' %
+              (len(PUMP_PREFIXES), PUMP_PREFIXES, '1..2 characters (n in 16, 24, 32, 48) and of 3 characters (n in 16, 32)'
+               if ctx.thorough else '1..2 characters (n in 16, 48) and of 3 characters (first 4 prefixes, n = 32)'),
             e='all sequences of 1..%d statements over a pool of %d well-formed statements' % (b['stmt_len'], len(space.stmts)),
             histories='all sequences of 1..%d input calls over 3 accepted + 3 rejected texts, every placement of builds' % b['hist_len'] +
                       ('; all sequences of %d input calls with a build after every input / after the last input only' %
